@@ -162,7 +162,14 @@ fn scenario(env: &Env, k: u64, case: u64, rng: &mut rand::rngs::SmallRng, d: &mu
         };
         plan.push(Planned { id, machine, slot: slot as u32, net, at_ms: if burst { 10 } else { rng.gen_range(0..500) }, dest, len });
     }
-    let horizon = 500 + 1000;
+    // long enough for every throughput-limited queue to drain completely
+    let mut horizon: u64 = 10;
+    for (n, c) in cfgs.iter().enumerate() {
+        if c.thr_base > 0 {
+            let total_ms: u64 = plan.iter().filter(|p| p.net == n).map(|p| (p.len as u64 * 1000) / c.thr_base + 1).sum();
+            horizon = horizon.max(10 + total_ms / 1000 * 2 + 10);
+        }
+    }
     let rec = {
         let nets = nets.clone();
         let plan = plan.clone();
